@@ -763,6 +763,19 @@ pub(crate) fn add_sequence_rpush<W, R, T>(
     )
 }
 
+/// `Iterator::skip` drops whatever it steps over - also a violation raised while producing a skipped element
+/// of a lazy sequence. This steps over the first `n` *values* only.
+fn skip_values<V, E1, E0>(
+    iter: impl Iterator<Item = Result<Result<V, E1>, E0>>,
+    n: usize,
+) -> impl Iterator<Item = Result<Result<V, E1>, E0>> {
+    iter.enumerate().filter_map(move |(i, item)| match item {
+        Err(violation) => Some(Err(violation)),
+        Ok(_) if i < n => None,
+        kept => Some(kept),
+    })
+}
+
 pub(crate) fn add_sequence_insert<W, R, T>(
     scope: &mut RootCompilationScope<W, R, T>,
 ) -> Result<(), CompilationError> {
@@ -786,7 +799,7 @@ pub(crate) fn add_sequence_insert<W, R, T>(
                 .take(idx)
                 .collect::<Result<Result<Vec<_>, _>, _>>()?);
             ret.push(a2);
-            xraise!(ret.try_extend(seq0.iter(ns, rt.clone()).skip(idx))?);
+            xraise!(ret.try_extend(skip_values(seq0.iter(ns, rt.clone()), idx))?);
             Ok(manage_native!(XSequence::array(ret), rt))
         }),
     )
@@ -816,7 +829,7 @@ pub(crate) fn add_sequence_pop<W, R, T>(
                 .iter(ns, rt.clone())
                 .take(idx)
                 .collect::<Result<Result<Vec<_>, _>, _>>()?);
-            xraise!(ret.try_extend(seq0.iter(ns, rt.clone()).skip(idx + 1))?);
+            xraise!(ret.try_extend(skip_values(seq0.iter(ns, rt.clone()), idx + 1))?);
             Ok(manage_native!(XSequence::array(ret), rt))
         }),
     )
@@ -845,7 +858,7 @@ pub(crate) fn add_sequence_set<W, R, T>(
                 .take(idx)
                 .collect::<Result<Result<Vec<_>, _>, _>>()?);
             ret.push(a2);
-            xraise!(ret.try_extend(seq0.iter(ns, rt.clone()).skip(idx + 1),)?);
+            xraise!(ret.try_extend(skip_values(seq0.iter(ns, rt.clone()), idx + 1))?);
             Ok(manage_native!(XSequence::array(ret), rt))
         }),
     )
@@ -882,9 +895,9 @@ pub(crate) fn add_sequence_swap<W, R, T>(
                 .take(idx1)
                 .collect::<Result<Result<Vec<_>, _>, _>>()?);
             ret.push(xraise!(seq0.get(idx2, ns, rt.clone())?));
-            xraise!(ret.try_extend(seq0.iter(ns, rt.clone()).take(idx2).skip(idx1 + 1))?);
+            xraise!(ret.try_extend(skip_values(seq0.iter(ns, rt.clone()).take(idx2), idx1 + 1))?);
             ret.push(xraise!(seq0.get(idx1, ns, rt.clone())?));
-            xraise!(ret.try_extend(seq0.iter(ns, rt.clone()).skip(idx2 + 1))?);
+            xraise!(ret.try_extend(skip_values(seq0.iter(ns, rt.clone()), idx2 + 1))?);
             Ok(manage_native!(XSequence::array(ret), rt))
         }),
     )
